@@ -13,10 +13,13 @@ SEEDS = {
     "ios": [["remark = H1", "permit tcp host 10.0.0.1 any eq 80 443", "permit tcp any any eq 80", "remark = H2", "deny ip any any log"],
             ["10 permit ip any any", "20 permit tcp any any eq 80", "30 deny udp any any eq 53"],
             ["permit tcp any eq 1 2 any eq 3", "remark plain", "permit icmp any any", "permit icmp any any"],
-            ["permit icmp any any", "permit ip host 1.1.1.1 any", "remark = H1", "permit tcp any any eq 22", "remark = H2", "deny udp any any", "permit ip any host 2.2.2.2"]],
+            ["permit icmp any any", "permit ip host 1.1.1.1 any", "remark = H1", "permit tcp any any eq 22", "remark = H2", "deny udp any any", "permit ip any host 2.2.2.2"],
+            # protocols without a keyword (on one platform or on both): different numbers never shadow each other
+            ["permit 200 any any", "permit 201 any any", "permit 4 10.0.0.0 0.255.255.255 any", "permit 8 10.1.0.0 0.0.255.255 any", "permit 41 10.1.1.0 0.0.0.255 any"]],
     "nxos": [["remark = H1", "permit tcp 10.0.0.1/32 any eq 80", "permit tcp any any eq 80", "remark = H2", "deny ip any any log"],
              ["10 permit ip any any", "20 permit tcp any any eq 80", "30 deny udp any any eq 53"],
-             ["permit icmp any any", "permit ip 1.1.1.1/32 any", "remark = H1", "permit tcp any any eq 22", "remark = H2", "deny udp any any", "permit ip any 2.2.2.2/32"]],
+             ["permit icmp any any", "permit ip 1.1.1.1/32 any", "remark = H1", "permit tcp any any eq 22", "remark = H2", "deny udp any any", "permit ip any 2.2.2.2/32"],
+             ["permit 200 any any", "permit 201 any any", "permit 4 10.0.0.0/8 any", "permit 8 10.1.0.0/16 any", "permit 41 10.1.1.0/24 any"]],
 }
 OPS = ["platform:ios", "platform:nxos", "port_nr:1", "port_nr:0", "protocol_nr:1", "protocol_nr:0", "resequence:10:10", "resequence:5:1", "resequence:0",
        "group", "ungroup", "sort", "reverse", "insert", "pop", "copy", "data", "reparse", "delete_shadow", "ungroup_ports"]
@@ -309,7 +312,7 @@ def main(chk):
     # order/structure operations: exhaustive to one step deeper (an effect that shows only two steps later, e.g. reverse twice)
     STRUCT = ["group", "ungroup", "reverse", "insert", "pop", "sort", "copy"]
     for platform in ("ios", "nxos"):
-        for si in (0, len(SEEDS[platform]) - 1):
+        for si in (0, {'ios': 3, 'nxos': 2}[platform]):        # the ACLs with headings (with and without entries before the first heading)
             for ops in itertools.product(STRUCT, repeat=n + 1):
                 cases.append((platform, si, ops))
     rnd = random.Random(chk.seed)
